@@ -18,6 +18,7 @@ CONSTANTS Clients, Defs, MaxOps, Dev
 \*      "tx_follows_reload"        - a transaction in progress is moved to the new pool object
 \*      "stale_pool_after_reload"  - clients keep the pool object they resolved at connect time
 \*      "removed_pool_falls_back"  - a client of a removed pool is served by the remaining (control) pool
+\*      "parked_tx_uses_old_pool"  - a transaction held by PAUSE runs, after RESUME, on the pool object it saw when it was held
 
 Files == Defs \cup {"absent", "syntax_error", "semantic_error"}
 Valid(f) == f \in Defs \cup {"absent"}
@@ -27,17 +28,21 @@ VARIABLES file, config, pools, nextObj, reloadPc, staged,
           txdef,    \* client -> definition that object had
           cobj,     \* client -> pool object resolved at connect time (only used by a deviation)
           nops, viol,
-          applied   \* the last VALID file contents a reload was asked to load (what must be in effect)
+          applied,  \* the last VALID file contents a reload was asked to load (what must be in effect)
+          paused,   \* PAUSE is in force for db1
+          parked    \* client -> -1 (not held) or the pool object it saw when PAUSE held its new transaction
 
-vars == <<file, config, pools, nextObj, reloadPc, staged, tx, txdef, cobj, nops, viol, applied>>
+vars == <<file, config, pools, nextObj, reloadPc, staged, tx, txdef, cobj, nops, viol, applied, paused, parked>>
 
 Init == /\ file = "A" /\ config = "A" /\ pools = [def |-> "A", obj |-> 0] /\ nextObj = 1
         /\ reloadPc = "idle" /\ staged = "A"
         /\ tx = [c \in Clients |-> -1] /\ txdef = [c \in Clients |-> "none"] /\ cobj = [c \in Clients |-> 0]
-        /\ nops = 0 /\ viol = {} /\ applied = "A"
+        /\ nops = 0 /\ viol = {} /\ applied = "A" /\ paused = FALSE /\ parked = [c \in Clients |-> -1]
 
+\* (while PAUSE is in force the pool is not removed: RESUME could not address it any more - outside this model)
 WriteFile(f) == /\ reloadPc = "idle" /\ nops < MaxOps /\ nops' = nops + 1 /\ f \in Files /\ f # file /\ file' = f
-                /\ UNCHANGED <<config, pools, nextObj, reloadPc, staged, tx, txdef, cobj, viol, applied>>
+                /\ (paused => f # "absent")
+                /\ UNCHANGED <<config, pools, nextObj, reloadPc, staged, tx, txdef, cobj, viol, applied, paused, parked>>
 
 \* RELOAD / SIGHUP, step 1: parse + validate; an invalid file stops here.
 ReloadParse ==
@@ -47,7 +52,7 @@ ReloadParse ==
           /\ config' = staged' /\ reloadPc' = "apply"
      ELSE UNCHANGED <<staged, config, reloadPc>>
   /\ applied' = IF Valid(file) THEN file ELSE applied
-  /\ UNCHANGED <<file, pools, nextObj, tx, txdef, cobj, viol>>
+  /\ UNCHANGED <<file, pools, nextObj, tx, txdef, cobj, viol, paused, parked>>
 
 \* step 2: from_config - reuse the pool object when the definition hash is unchanged, else create; store POOLS
 ReloadApply ==
@@ -56,11 +61,28 @@ ReloadApply ==
      THEN UNCHANGED <<pools, nextObj>>
      ELSE pools' = [def |-> staged, obj |-> nextObj] /\ nextObj' = nextObj + 1
   /\ reloadPc' = "idle"
-  /\ UNCHANGED <<file, config, staged, tx, txdef, cobj, nops, viol, applied>>
+  /\ UNCHANGED <<file, config, staged, tx, txdef, cobj, nops, viol, applied, paused, parked>>
 
 \* A client starts a transaction: the pool is looked up by name now.
+\* PAUSE / RESUME of db1 (admin console).  A transaction that would start while paused is held (wait_paused) and
+\* starts when RESUME arrives - on the pool that is configured THEN (the pool is looked up after waking).
+Pause == /\ ~paused /\ reloadPc = "idle" /\ pools.def # "absent" /\ nops < MaxOps /\ nops' = nops + 1 /\ paused' = TRUE
+         /\ UNCHANGED <<file, config, pools, nextObj, reloadPc, staged, tx, txdef, cobj, viol, applied, parked>>
+Park(c) == /\ paused /\ tx[c] = -1 /\ parked[c] = -1 /\ nops < MaxOps /\ nops' = nops + 1
+           /\ parked' = [parked EXCEPT ![c] = pools.obj]
+           /\ UNCHANGED <<file, config, pools, nextObj, reloadPc, staged, tx, txdef, cobj, viol, applied, paused>>
+Resume ==
+  /\ paused /\ reloadPc = "idle" /\ pools.def # "absent" /\ nops < MaxOps /\ nops' = nops + 1 /\ paused' = FALSE
+  /\ LET held == {c \in Clients : parked[c] # -1}
+         stale == {c \in held : "parked_tx_uses_old_pool" \in Dev /\ parked[c] # pools.obj}
+     IN /\ tx' = [c \in Clients |-> IF c \in held THEN (IF c \in stale THEN parked[c] ELSE pools.obj) ELSE tx[c]]
+        /\ txdef' = [c \in Clients |-> IF c \in held /\ c \notin stale THEN pools.def ELSE txdef[c]]
+        /\ viol' = IF stale # {} THEN viol \cup {"old_definition_after_reload"} ELSE viol
+  /\ parked' = [c \in Clients |-> -1]
+  /\ UNCHANGED <<file, config, pools, nextObj, reloadPc, staged, cobj, applied>>
+
 TxStart(c) ==
-  /\ tx[c] = -1 /\ nops < MaxOps /\ nops' = nops + 1
+  /\ tx[c] = -1 /\ ~paused /\ parked[c] = -1 /\ nops < MaxOps /\ nops' = nops + 1
   /\ LET o == IF "stale_pool_after_reload" \in Dev THEN cobj[c] ELSE pools.obj
          d == IF "stale_pool_after_reload" \in Dev THEN txdef[c] ELSE pools.def
      IN IF pools.def = "absent" /\ "stale_pool_after_reload" \notin Dev
@@ -69,7 +91,7 @@ TxStart(c) ==
              /\ UNCHANGED txdef
         ELSE /\ tx' = [tx EXCEPT ![c] = pools.obj] /\ txdef' = [txdef EXCEPT ![c] = pools.def]
              /\ viol' = IF reloadPc = "idle" /\ pools.def # config THEN viol \cup {"old_definition_after_reload"} ELSE viol
-  /\ UNCHANGED <<file, config, pools, nextObj, reloadPc, staged, cobj, applied>>
+  /\ UNCHANGED <<file, config, pools, nextObj, reloadPc, staged, cobj, applied, paused, parked>>
 
 \* A statement inside the transaction runs on the object the transaction started on.
 TxStep(c) ==
@@ -77,13 +99,13 @@ TxStep(c) ==
   /\ IF "tx_follows_reload" \in Dev /\ tx[c] # pools.obj
      THEN /\ tx' = [tx EXCEPT ![c] = pools.obj] /\ viol' = viol \cup {"transaction_moved_by_reload"}
      ELSE UNCHANGED <<tx, viol>>
-  /\ UNCHANGED <<file, config, pools, nextObj, reloadPc, staged, txdef, cobj, applied>>
+  /\ UNCHANGED <<file, config, pools, nextObj, reloadPc, staged, txdef, cobj, applied, paused, parked>>
 
 TxEnd(c) == /\ tx[c] # -1 /\ tx' = [tx EXCEPT ![c] = -1]
-            /\ UNCHANGED <<file, config, pools, nextObj, reloadPc, staged, txdef, cobj, nops, viol, applied>>
+            /\ UNCHANGED <<file, config, pools, nextObj, reloadPc, staged, txdef, cobj, nops, viol, applied, paused, parked>>
 
-Next == (\E f \in Files : WriteFile(f)) \/ ReloadParse \/ ReloadApply
-        \/ (\E c \in Clients : TxStart(c) \/ TxStep(c) \/ TxEnd(c))
+Next == (\E f \in Files : WriteFile(f)) \/ ReloadParse \/ ReloadApply \/ Pause \/ Resume
+        \/ (\E c \in Clients : TxStart(c) \/ TxStep(c) \/ TxEnd(c) \/ Park(c))
 Spec == Init /\ [][Next]_vars
 
 \* C14
